@@ -2347,7 +2347,7 @@ class CiscoConfParse(object):
         if config is None:
             config = []
 
-        if len(config) > 0:
+        if not isinstance(config, pathlib.Path) and len(config) > 0:
             try:
                 correct_element_types = []
                 for ii in config:
